@@ -3929,6 +3929,9 @@ class OptionalNode(ActionSinkNode):
         sub_dfa = self.sub_contents.convert(current_error_handlers)
         if sub_dfa.starting_state in sub_dfa.accepting_states:
             raise IllegalDFAStateError("Ambigious path in optional: should use optional or go to next", sub_dfa.starting_state)
+        if isinstance(sub_dfa.starting_state, DFProxyState):
+            # (a condition or an interrupting action: there is no input to decide on whether the optional is taken)
+            raise IllegalDFAStateError("The first statement in an optional must match some input", sub_dfa.starting_state)
 
         # The entry state doubles as the "skipped" exit: what follows the optional is appended to it. If the body can come back to its own first
         # state (it starts with a loop), that state must not be the entry, or the continuation would be offered on every iteration as well.
